@@ -30,7 +30,6 @@ func checkC10(p *Prog, c *Check) {
 	c11Nonce(p, c, "C10-R2")
 	c10RefuseCodes(p, c)
 	c10NoWriteBeforeRefusal(p, c)
-	c10AddConfigExit(p, c)
 	c10Membership(p, c)
 	c10CheckTx(p, c)
 }
@@ -81,19 +80,19 @@ func c10Invariants(p *Prog, c *Check) {
 
 func c10RefuseCodes(p *Prog, c *Check) {
 	rule := "C10-R2.codes"
-	for _, s := range []string{"app.makeErrorResponse", "app.makeAlreadySeenResponse"} {
-		fn, err := p.Func(s)
-		if !c.Must(err) {
+	// refusal constructors are recognised by what they return (every return a literal with a constant
+	// non-zero Code), not by name; the ones used on refusing paths are listed for the record
+	nref := 0
+	for _, fn := range p.Funcs {
+		if fn.Signature.Results().Len() != 1 || !strings.HasSuffix(fn.Signature.Results().At(0).Type().String(), "types.ResponseDeliverTx") {
 			continue
 		}
-		fi := p.Info(fn)
-		for _, r := range returnsOf(fn) {
-			flds := fi.structLitFields(r.Results[0])
-			code := flds["Code"]
-			ok := code != nil && code.K == TConst && code.s != "0"
-			c.Result(ok, rule, s+":code", p.siteOf(r), shortFn(fn), "refusal response", "a refusing response constructor returns code 0: "+termStr(code), "Code = "+termStr(code))
+		if classifyFn(p, fn, 0) == "refuse" {
+			nref++
+			c.Ok(rule, "refusal-constructor:"+shortFn(fn), p.Rel(fn.Pos()), shortFn(fn), "refusal response constructor", "every return carries a constant non-zero Code")
 		}
 	}
+	c.Floor(rule+".constructors", nref, 2)
 	// DeliverTx / CheckTx: every return that is not the delivery result is a refusal
 	for _, s := range []string{"app.ShutterApp.DeliverTx", "app.ShutterApp.CheckTx"} {
 		fn, err := p.Func(s)
@@ -104,11 +103,11 @@ func c10RefuseCodes(p *Prog, c *Check) {
 		n := 0
 		for _, r := range returnsOf(fn) {
 			t := fi.T(r.Results[0])
-			if ParsePat("deliverMessage(...)").Match(t, Binds{}) {
-				continue
+			kind := classifyResponse(fi, r.Results[0])
+			if kind == "pass" {
+				continue // the result of delivering the message (a function with accepting and refusing returns)
 			}
 			n++
-			kind := classifyResponse(fi, r.Results[0])
 			// the accepting return of CheckTx must be behind all four checks (C10-R5); here: early returns refuse
 			if kind == "accept" {
 				if s == "app.ShutterApp.CheckTx" {
@@ -126,15 +125,59 @@ func c10RefuseCodes(p *Prog, c *Check) {
 // classifyResponse: accept (Code 0), refuse (non-zero code / refusal constructor), pass (result of
 // another deliver function), unknown.
 func classifyResponse(fi *FnInfo, v ssa.Value) string {
+	return classifyResponseD(fi, v, 0)
+}
+
+var classifyFnMemo = map[*ssa.Function]string{}
+
+// classifyFn: what a module function returning a response struct can return: "refuse" when every
+// return is a refusal, "accept" when every return carries code 0, "pass" when mixed.
+func classifyFn(p *Prog, fn *ssa.Function, depth int) string {
+	fn = origin(fn)
+	if k, ok := classifyFnMemo[fn]; ok {
+		return k
+	}
+	if depth > 4 || fn.Blocks == nil {
+		return "pass"
+	}
+	classifyFnMemo[fn] = "pass" // recursion guard
+	fi := p.Info(fn)
+	kinds := map[string]bool{}
+	for _, r := range returnsOf(fn) {
+		if len(r.Results) != 1 {
+			kinds["unknown"] = true
+			continue
+		}
+		kinds[classifyResponseD(fi, r.Results[0], depth+1)] = true
+	}
+	res := "pass"
+	if len(kinds) == 1 {
+		for k := range kinds {
+			if k == "refuse" || k == "accept" {
+				res = k
+			}
+		}
+	}
+	classifyFnMemo[fn] = res
+	return res
+}
+
+func classifyResponseD(fi *FnInfo, v ssa.Value, depth int) string {
 	t := fi.T(v)
-	if cn := t.callName(); cn != "" {
-		switch {
-		case nameMatches(cn, "makeErrorResponse"), nameMatches(cn, "notAKeyper"), nameMatches(cn, "makeAlreadySeenResponse"):
-			return "refuse"
+	if t.K == TCall && t.Callee != nil && inModule(t.Callee) {
+		return classifyFn(fi.p, t.Callee, depth)
+	}
+	if ph, ok := v.(*ssa.Phi); ok && depth < 4 {
+		kinds := map[string]bool{}
+		for _, e := range ph.Edges {
+			kinds[classifyResponseD(fi, e, depth+1)] = true
 		}
-		if t.K == TCall && t.Callee != nil && inModule(t.Callee) {
-			return "pass"
+		if len(kinds) == 1 {
+			for k := range kinds {
+				return k
+			}
 		}
+		return "pass"
 	}
 	flds := fi.structLitFields(v)
 	if flds != nil {
@@ -164,6 +207,9 @@ func isStateWrite(fn *ssa.Function, in ssa.Instruction) bool {
 		}
 		if _, isG := x.Addr.(*ssa.Global); isG {
 			return true
+		}
+		if fv, isFV := x.Addr.(*ssa.FreeVar); isFV && freeVarIsParentLocal(fn, fv) {
+			return false // a captured local variable of the enclosing function
 		}
 		// stores through freshly allocated objects (new(T) in this function) are local until published
 		if fa, ok := x.Addr.(*ssa.FieldAddr); ok {
@@ -366,6 +412,7 @@ func c10NoWriteBeforeRefusal(p *Prog, c *Check) {
 	}
 	seen := map[string]bool{}
 	bad := map[*ssa.Function]bool{}
+	inf := &infeasible{p: p, scope: scope, memo: map[string]string{}}
 	for _, v := range viols {
 		key := fmt.Sprintf("%s|write:%s|refusal:%s", shortFn(v.fn), writeDesc(p, v.fn, v.w), retKeyByCall(p.Info(v.fn), v.ret))
 		if seen[key] {
@@ -373,8 +420,9 @@ func c10NoWriteBeforeRefusal(p *Prog, c *Check) {
 		}
 		seen[key] = true
 		bad[v.fn] = true
-		if why, ok := c10NWReviewed[key]; ok {
-			c.Ok(rule, key, p.siteOf(v.w)+" → "+p.siteOf(v.ret), shortFn(v.fn), "state write followed by a refusing return", "reviewed: "+why)
+		if why, ok := inf.infeasibleRefusal(v.fn, v.ret, 0); ok {
+			c.Ok(rule, key, p.siteOf(v.w)+" → "+p.siteOf(v.ret), shortFn(v.fn), "state write followed by a refusing return", "the refusing exit cannot be taken: "+why)
+			c.Ok("C10-R3.exit", "infeasible-exit@"+shortFn(v.fn)+"|"+retKeyByCall(p.Info(v.fn), v.ret), p.siteOf(v.ret), shortFn(v.fn), "refusing return", why)
 			continue
 		}
 		c.Fail(rule, key, p.siteOf(v.w)+" → "+p.siteOf(v.ret), shortFn(v.fn), "state write followed by a refusing return", "a transaction that is refused at "+p.siteOf(v.ret)+" may already have modified application state at "+p.siteOf(v.w))
@@ -393,56 +441,187 @@ func c10NoWriteBeforeRefusal(p *Prog, c *Check) {
 	c.Floor(rule, n, 10)
 }
 
-// reviewed exceptions of the write-before-refusal rule: one unreachable exit, two writes before it
-const addConfigExitReason = "the 'Error in addConfig' exit is unreachable: addConfig fails only if checkConfig fails, and checkConfig(bc) succeeded earlier in this function on the same Configs (no write to Configs in between; rule C10-R3.exit checks that shape)"
-
-var c10NWReviewed = map[string]string{
-	"(*app.ShutterApp).deliverBatchConfig|write:store ConfigVoting|refusal:app.makeErrorResponse#5":                  addConfigExitReason,
-	"(*app.ShutterApp).deliverBatchConfig|write:call (*app.Voting[T, _]).AddVote|refusal:app.makeErrorResponse#5": addConfigExitReason,
+// ---- refusing exits that cannot be taken ----
+//
+// A refusing return guarded by "K(...) failed" is infeasible when K cannot fail there:
+//   leaf: every failing return of K passes through the error of H(args built from K's parameters),
+//         the fact H(the same arguments) == nil dominates the call of K (possibly in a caller), and the
+//         state H reads is not written between that check and K's own evaluation of H: the fields H
+//         (transitively) loads are stored, inside the delivery scope, only in K after its call of H,
+//         and K has a single call site in the scope, outside any loop;
+//   step: every failing return of K is itself infeasible (its guards are looked for in K and K's callers).
+// This replaces a table of reviewed exits: the 'Error in addConfig' exit of deliverBatchConfig is the
+// one instance on the pinned tree (addConfig fails only through checkConfig, which succeeded before).
+type infeasible struct {
+	p     *Prog
+	scope []*ssa.Function
+	memo  map[string]string
 }
 
-// c10AddConfigExit backs the reviewed entries: in deliverBatchConfig, the refusing return guarded by
-// addConfig(bc) != nil is dominated by checkConfig(bc) == nil for the same bc, addConfig's only
-// failing path is checkConfig's error, and no write to ShutterApp.Configs lies between the two calls.
-func c10AddConfigExit(p *Prog, c *Check) {
-	rule := "C10-R3.exit"
-	fn, err := p.Func("app.ShutterApp.deliverBatchConfig")
-	if !c.Must(err) {
-		return
+func (x *infeasible) infeasibleRefusal(fn *ssa.Function, r *ssa.Return, depth int) (string, bool) {
+	if depth > 3 {
+		return "", false
 	}
+	p := x.p
 	fi := p.Info(fn)
-	ac, err2 := p.Func("app.ShutterApp.addConfig")
-	if !c.Must(err2) {
-		return
-	}
-	afi := p.Info(ac)
-	// addConfig's non-nil returns are exactly checkConfig's error
-	okOnly := true
-	for _, r := range returnsOf(ac) {
-		if afi.errIsNil(r.Results[0], r, 0) == yes {
-			continue
-		}
-		if !ParsePat("checkConfig(_, $cfg)").Match(afi.T(r.Results[0]), Binds{"cfg": afi.T(ac.Params[1])}) {
-			okOnly = false
-		}
-	}
-	c.Result(okOnly, rule, "addConfig:fails-only-via-checkConfig", p.Rel(ac.Pos()), shortFn(ac), "addConfig error returns", "addConfig can fail for a reason other than checkConfig(cfg): the reviewed unreachable exit of deliverBatchConfig would be reachable", "error == checkConfig(cfg)")
-	for i, ci := range callsTo(fn, "(*app.ShutterApp).addConfig") {
-		call := ci.(*ssa.Call)
-		b := Binds{"bc": fi.T(call.Common().Args[1])}
-		if !c.Guard(p, rule, fmt.Sprintf("deliverBatchConfig:addConfig#%d", i+1), call, "addConfig(bc)", b, "checkConfig(_, $bc) == nil") {
-			continue
-		}
-		// no write to Configs between: the only writers of Configs in scope are addConfig itself / InitChain
-		app, _ := p.Named("app.ShutterApp")
-		okW := true
-		for _, w := range p.fieldWrites(app, "Configs") {
-			if origin(w.Fn) == fn {
-				okW = false
+	facts := fi.FactsAt(r)
+	for _, b := range fn.Blocks {
+		for _, in := range b.Instrs {
+			call, ok := in.(*ssa.Call)
+			if !ok || !instrDominates(call, r) {
+				continue
+			}
+			k := call.Common().StaticCallee()
+			if k == nil || !inModule(k) || k.Blocks == nil {
+				continue
+			}
+			et := fi.errResultTerm(call)
+			if et == nil || !isErrorType(et.Typ) {
+				continue
+			}
+			failed := false
+			for _, a := range facts {
+				if a.L.s == et.s && a.Op == "!=" && a.R.K == TNil {
+					failed = true
+				}
+			}
+			if !failed {
+				continue
+			}
+			if why, ok := x.cannotFail(origin(k), call, depth); ok {
+				return fmt.Sprintf("it is guarded by the failure of %s at %s, and %s", shortFn(k), p.siteOf(call), why), true
 			}
 		}
-		c.Result(okW, rule, fmt.Sprintf("deliverBatchConfig:no-configs-write#%d", i+1), p.siteOf(call), shortFn(fn), "writes of Configs in deliverBatchConfig", "Configs is written inside deliverBatchConfig between checkConfig and addConfig", "none")
 	}
+	return "", false
+}
+
+func (x *infeasible) cannotFail(k *ssa.Function, call *ssa.Call, depth int) (string, bool) {
+	p := x.p
+	kfi := p.Info(k)
+	cfi := p.Info(call.Parent())
+	var whys []string
+	nFail := 0
+	for _, kr := range returnsOf(k) {
+		ev := kr.Results[len(kr.Results)-1]
+		if kfi.errIsNil(ev, kr, 0) == yes {
+			continue
+		}
+		nFail++
+		t := kfi.T(ev)
+		if t.K == TCall && t.Callee != nil && inModule(t.Callee) && isErrorType(t.Typ) {
+			// leaf: pass-through of H(args over K's parameters)
+			m := map[string]*Term{}
+			for i, prm := range k.Params {
+				if i < len(call.Common().Args) {
+					m[prm.Name()] = cfi.T(call.Common().Args[i])
+				}
+			}
+			onlyParams := true
+			t.walk(func(s *Term) {
+				if s.K == TVar || s.K == TPhi {
+					onlyParams = false
+				}
+			})
+			if !onlyParams {
+				debugf("cannotFail %s: pass-through %s not over parameters", shortFn(k), t.s)
+				return "", false
+			}
+			ht := t.subst(m)
+			// call terms carry their site; the guard is another evaluation of H with the same arguments
+			hb := Binds{}
+			var ps []string
+			for i, a := range ht.Sub {
+				hb[fmt.Sprintf("a%d", i)] = a
+				ps = append(ps, fmt.Sprintf("$a%d", i))
+			}
+			ok, _, _, gf := p.guardLift(call, hb, []string{fnName(t.Callee) + "(" + strings.Join(ps, ", ") + ") == nil"}, 0)
+			if !ok {
+				debugf("cannotFail %s: no fact %s == nil at %s; facts %v", shortFn(k), ht.s, p.siteOf(call), atomStrings(gf))
+				return "", false
+			}
+			if why, ok := x.stateStable(t.Callee, k, kfi, ev); !ok {
+				debugf("cannotFail %s: state not stable: %s", shortFn(k), why)
+				return "", false
+			}
+			whys = append(whys, fmt.Sprintf("%s fails only through %s, which succeeded for the same arguments before (no write of the state it reads in between)", shortFn(k), shortFn(t.Callee)))
+			continue
+		}
+		if why, ok := x.infeasibleRefusal(k, kr, depth+1); ok {
+			whys = append(whys, fmt.Sprintf("%s's failing return at %s cannot be taken: %s", shortFn(k), p.siteOf(kr), why))
+			continue
+		}
+		return "", false
+	}
+	if nFail == 0 {
+		return shortFn(k) + " has no failing return", true
+	}
+	return strings.Join(dedup(whys), "; "), true
+}
+
+// stateStable: the fields h loads (transitively) are stored inside the delivery scope only in k
+// after k's call of h, and k has one call site in the scope, outside loops.
+func (x *infeasible) stateStable(h, k *ssa.Function, kfi *FnInfo, hres ssa.Value) (string, bool) {
+	p := x.p
+	reads := map[string]bool{}
+	for _, f := range p.CG().Reachable([]*ssa.Function{h}, func(f *ssa.Function) bool { return !inModule(f) }) {
+		for _, b := range f.Blocks {
+			for _, in := range b.Instrs {
+				if fa, ok := in.(*ssa.FieldAddr); ok && baseAlloc(fa) == nil {
+					reads[fieldKey(fa.X.Type(), fa.Field)] = true
+				}
+				if fl, ok := in.(*ssa.Field); ok {
+					_ = fl
+				}
+			}
+		}
+	}
+	hcall, _ := hres.(*ssa.Call)
+	if hcall == nil {
+		return "the pass-through value is not a call result", false
+	}
+	nsites := 0
+	for _, f := range x.scope {
+		for _, b := range f.Blocks {
+			for _, in := range b.Instrs {
+				if ci, ok := in.(ssa.CallInstruction); ok {
+					if sc := ci.Common().StaticCallee(); sc != nil && origin(sc) == k {
+						nsites++
+						if reachAvoiding2(b, b) {
+							return "call of " + shortFn(k) + " inside a loop", false
+						}
+					}
+				}
+				st, ok := in.(*ssa.Store)
+				if !ok || !isStateWrite(f, in) {
+					continue
+				}
+				key := ""
+				switch a := st.Addr.(type) {
+				case *ssa.FieldAddr:
+					key = fieldKey(a.X.Type(), a.Field)
+				case *ssa.IndexAddr:
+					// element store into a slice loaded from a field
+					if ld, ok := a.X.(*ssa.UnOp); ok {
+						if fa, ok := ld.X.(*ssa.FieldAddr); ok {
+							key = fieldKey(fa.X.Type(), fa.Field)
+						}
+					}
+				}
+				if key == "" || !reads[key] {
+					continue
+				}
+				if origin(f) == k && instrDominates(hcall, in) {
+					continue
+				}
+				return "field " + key + " written at " + p.siteOf(in), false
+			}
+		}
+	}
+	if nsites != 1 {
+		return fmt.Sprintf("%d call sites of %s in the delivery scope", nsites, shortFn(k)), false
+	}
+	return "", true
 }
 
 func writeDesc(p *Prog, fn *ssa.Function, in ssa.Instruction) string {
@@ -592,4 +771,42 @@ func membersOnEveryPath(p *Prog, fn *ssa.Function, target *ssa.BasicBlock) bool 
 		return false
 	}
 	return mustPass(fn, target, cut, nil)
+}
+
+// freeVarIsParentLocal: the free variable is bound, at every creation site of the closure, to a
+// local variable (Alloc) of the enclosing function.
+func freeVarIsParentLocal(fn *ssa.Function, fv *ssa.FreeVar) bool {
+	par := fn.Parent()
+	if par == nil {
+		return false
+	}
+	idx := -1
+	for i, f := range fn.FreeVars {
+		if f == fv {
+			idx = i
+		}
+	}
+	if idx < 0 {
+		return false
+	}
+	found := false
+	for _, b := range par.Blocks {
+		for _, in := range b.Instrs {
+			mc, ok := in.(*ssa.MakeClosure)
+			if !ok || mc.Fn != fn {
+				continue
+			}
+			found = true
+			switch bv := mc.Bindings[idx].(type) {
+			case *ssa.Alloc:
+			case *ssa.FreeVar:
+				if !freeVarIsParentLocal(par, bv) {
+					return false
+				}
+			default:
+				return false
+			}
+		}
+	}
+	return found
 }
